@@ -69,6 +69,10 @@ pub enum Bad {
     /// refused: (kind, n) as for CreateLate for kind % 10 < 8, 8 = a creation
     /// that would be valid elsewhere, 9 = a creation without a key column
     NoValidation(u8, u8),
+    /// create_table under a name about which one catalog table already holds
+    /// an orphan row, put there through insert_rows (0 `_Tables`, 1 `_Columns`,
+    /// 2 `_Validation`): the refusal must leave that row where it was
+    CreateOverOrphan(u8),
 }
 
 #[derive(Clone, Debug, Serialize, Deserialize, Hash, PartialEq, Eq)]
@@ -198,6 +202,7 @@ fn perform(run: &mut Run, bad: &Bad) -> Option<(String, std::io::Result<()>)> {
             let rows: Vec<Vec<Value>> = (0..extra).map(|i| vec![Value::Int(start + i), Value::from(format!("over the limit {i}"))]).collect();
             Some((format!("insert(Full, {extra} more rows)"), run.pkg().insert_rows(Insert::into("Full").rows(rows))))
         }
+        Bad::CreateOverOrphan(_) => Some(("create_table(\"Ghost\"), about which a catalog table holds an orphan row".into(), run.pkg().create_table("Ghost", vec![key_col(), Column::build("Name").nullable().string(16)]))),
         Bad::NoValidation(kind, n) => match kind % 10 {
             8 => Some(("create_table(Fresh, valid columns) on a database without _Validation".into(), run.pkg().create_table("Fresh", vec![key_col(), Column::build("Name").nullable().string(16)]))),
             9 => Some(("create_table(Fresh, no key column) on a database without _Validation".into(), run.pkg().create_table("Fresh", vec![Column::build("Name").nullable().string(16)]))),
@@ -472,6 +477,18 @@ pub fn check_case(case: &Case, st: &mut Stats) -> Check {
         }
         run.trace.push("(the package is replaced by a file whose string pool holds 65,535 entries, or 65,532 for the late-failing creation)".into());
     }
+    if let Bad::CreateOverOrphan(k) = &case.bad {
+        let q = match k % 3 {
+            0 => Insert::into("_Tables").row(vec![Value::from("Ghost")]),
+            1 => Insert::into("_Columns").row(vec![Value::from("Ghost"), Value::Int(1), Value::from("Id"), Value::Int(0x2502)]),
+            _ => Insert::into("_Validation").row(vec![Value::from("Ghost"), Value::from("Id"), Value::from("N"), Value::Null, Value::Null, Value::Null, Value::Null, Value::from("Identifier"), Value::Null, Value::from("left over")]),
+        };
+        if run.pkg().insert_rows(q).is_err() {
+            st.class("not-applicable");
+            return Ok(());
+        }
+        run.trace.push(format!("insert({}, an orphan row about a table Ghost that does not exist)", ["_Tables", "_Columns", "_Validation"][(*k % 3) as usize]));
+    }
     if let Bad::NoValidation(_, n) = &case.bad {
         let mut db = crate::props::c20::strings_db(3 + (*n % 3) as u32);
         db.with_validation = false;
@@ -622,13 +639,14 @@ fn bad_strategy() -> impl Strategy<Value = Bad> {
         1 => any::<u8>().prop_map(Bad::InsertOverRowLimit),
         2 => any::<u8>().prop_map(Bad::PoolFull),
         3 => (any::<u8>(), any::<u8>()).prop_map(|(a, b)| Bad::NoValidation(a, b)),
+        2 => any::<u8>().prop_map(Bad::CreateOverOrphan),
     ]
 }
 
 pub fn run(ctx: &Ctx) -> Report {
     let mut rep = Report::new(
         "exploration",
-        "a generated valid prefix (tables, rows, streams, summary, code page, reopen) to reach a state, then one invalid call from a catalogue of 25 kinds: unknown / invalid / reserved names, arity 0..33, one invalid value (each way of being invalid) at the first, middle or last row of a batch, duplicate key against the table and inside the batch, unknown column in SET or WHERE, key-colliding update, stream calls with refused names or on missing streams, and late failures (column names of 33..64 characters, table names of 33..60, widths above 255, enumerations beyond 255 characters or with ';', ranges including i32::MIN, malformed foreign keys; the same late-failing creations on a foreign database that has no _Validation table). Oracle when the call returns Err: full API snapshot (including the three catalog tables) before == after; snapshot after flush + reopen before == after; string-pool entries seen by the independent decoder before == after and the saved file still passes the C08 file checks. Non-trivial = the call returned Err; distinct by (state, call).",
+        "a generated valid prefix (tables, rows, streams, summary, code page, reopen) to reach a state, then one invalid call from a catalogue of 26 kinds: unknown / invalid / reserved names, arity 0..33, one invalid value (each way of being invalid) at the first, middle or last row of a batch, duplicate key against the table and inside the batch, unknown column in SET or WHERE, key-colliding update, stream calls with refused names or on missing streams, and late failures (column names of 33..64 characters, table names of 33..60, widths above 255, enumerations beyond 255 characters or with ';', ranges including i32::MIN, malformed foreign keys; the same late-failing creations on a foreign database that has no _Validation table; creation under a name about which a catalog table holds an orphan row). Oracle when the call returns Err: full API snapshot (including the three catalog tables) before == after; snapshot after flush + reopen before == after; string-pool entries seen by the independent decoder before == after and the saved file still passes the C08 file checks. Non-trivial = the call returned Err; distinct by (state, call).",
     );
     rep.assumptions.push("a call that unexpectedly returns Ok is not judged here (it belongs to C06 / C07 / C20)".into());
     let mut st = Stats::new();
